@@ -6,13 +6,13 @@
    All are tied to /repo by harness/props/c18.py on every run.
 
    What is NOT proved here (only checked per run by the correspondence and the oracle):
-   * hypergraph_rule_eq_tree_rule -- that HyperGraph.contract keeps exactly the tree's legs
-     (for networks without a repeated index inside a tensor) needs a forest-level invariant
-     relating the edges dictionary to the leaves outside a node; it is not proved;
    * the single-term pass (compute_simplified) and simplify_scalars are modelled and compared
-     state by state, but have no theorem; simplify_hadamard / the greedy search are not modelled. *)
+     state by state, but have no theorem; simplify_hadamard / the greedy search are not modelled;
+   * for the fixed flop tracking the run-level theorem compares with the run WITHOUT simplify_batch;
+     that this unsimplified run's flops are the tree's flops is the per-step theorem
+     C18_processor_flops_eq_tree_flops (its leg-set hypotheses are not chained over a run). *)
 From Coq Require Import Lia.
-From Ctg Require Import Base Net HGraph Simulators Compressed BaseFacts NetFacts SimulatorsFacts.
+From Ctg Require Import Base Net HGraph Simulators Compressed BaseFacts NetFacts SimulatorsFacts HGraphFacts HGraphTreeFacts.
 
 (* annealing's compute_contracted_info is the tree rule, literally: same keys in the same
    order with the same counts (legs_union then filter count < appearances), cost = product
@@ -67,14 +67,120 @@ Theorem C18_simplify_batch_scales_flops_partial : forall szs x il jl, NoDup (lke
 Proof. exact batch_removal_scales_flops. Qed.
 Print Assumptions C18_simplify_batch_scales_flops_partial.
 
-(* finding 13 in the model: the flops random-greedy reports for a path (processor with
-   track_flops, simplify_batch, then the contractions) are not the flops of the tree built
-   from that path: 'ab,bc->ac' with a=2,b=3,c=5 reports 10, the tree costs 30 *)
-Theorem C18_reported_cost_is_tree_cost_refuted :
+(* HISTORICAL (code before fix cd00d66, model variant pfix = false, `reported_flops`):
+   finding 13 in the model: the flops random-greedy reported for a path (processor with
+   track_flops, simplify_batch, then the contractions, flops NOT scaled by batch_factor) were
+   not the flops of the tree built from that path: 'ab,bc->ac' with a=2,b=3,c=5 reported 10,
+   the tree costs 30.  Kept as a regression statement about the OLD definition only. *)
+Theorem C18_reported_cost_is_tree_cost_refuted_prefix_code :
   ~ (forall (n : net) (path : list (nat * nat)) (t : tree),
        ssa_tree (length (inputs n)) path = Some t -> reported_flops n path = total_flops n [] t).
 Proof. exact reported_cost_refuted. Qed.
-Print Assumptions C18_reported_cost_is_tree_cost_refuted.
+Print Assumptions C18_reported_cost_is_tree_cost_refuted_prefix_code.
+
+(* THE CODE AS IT IS NOW (pfix = true: contract_nodes adds batch_factor * compute_flops).
+   simplify_batch, on a processor whose edge map is complete (proc_edges_ok, evaluated per run
+   as proc_edges_ok_b on every generated network), leaves every node with its legs minus the
+   batch indices B, multiplies batch_factor by prod sizes(B) and touches nothing else *)
+Theorem C18_simplify_batch_spec : forall p, proc_edges_ok p ->
+  let B := batch_indices p in
+  (forall i, pget (proc_simplify_batch p) i = drop_list B (pget p i)) /\
+  pbatch (proc_simplify_batch p) = (pbatch p * pprod (pszs p) B)%Z /\
+  pszs (proc_simplify_batch p) = pszs p /\ pflops_acc (proc_simplify_batch p) = pflops_acc p /\
+  ptrack (proc_simplify_batch p) = ptrack p /\ pfix (proc_simplify_batch p) = pfix p.
+Proof. exact simplify_batch_spec. Qed.
+Print Assumptions C18_simplify_batch_spec.
+
+(* ... and then every contraction adds exactly the flops of the operands' ORIGINAL legs
+   (= product of the sizes over the union of their original indices, i.e. the tree's flops by
+   C18_processor_flops_eq_tree_flops), whenever the held legs are the originals minus B, every
+   index of B sits on one of the two operands (a batch index sits on every tensor) and
+   batch_factor = prod sizes(B).
+   (one step; the run-level statement is C18_fixed_run_reports_unsimplified_flops below) *)
+Theorem C18_fixed_step_reports_original_flops_partial : forall p i j B il0 jl0,
+  ptrack p = true -> pfix p = true -> i <> j ->
+  pbatch p = pprod (pszs p) B -> pget p i = drop_list B il0 -> pget p j = drop_list B jl0 ->
+  NoDup B -> NoDup (lkeys il0) -> NoDup (lkeys jl0) ->
+  (forall x, In x B -> In x (lkeys il0) \/ In x (lkeys jl0)) ->
+  pflops_acc (fst (proc_contract i j p)) = (pflops_acc p + pflops (pszs p) il0 jl0)%Z /\
+  pflops (pszs p) il0 jl0 = pprod (pszs p) (union_keys il0 jl0).
+Proof. exact fixed_step_reports_original_flops. Qed.
+Print Assumptions C18_fixed_step_reports_original_flops_partial.
+
+(* run level, the full statement for the code as it is now: on a processor whose structure is
+   sound (proc_ok_b: track_flops, batch_factor = 1, complete edge map, distinct node ids, strictly
+   sorted legs -- i.e. no repeated index inside a tensor --, distinct batch indices) and for any
+   sequence of contractions in which every batch index sits on one of the two operands at every
+   step (present_b, computed on the run WITHOUT simplify_batch), the flops reported after
+   simplify_batch + the contractions equal the flops the same contractions report without
+   simplify_batch, i.e. on the operands' full legs.  Both booleans are evaluated inside Coq on
+   every generated network / path of the check. *)
+Theorem C18_fixed_run_reports_unsimplified_flops : forall p path,
+  proc_ok_b p = true -> present_b (batch_indices p) p path = true ->
+  pflops_acc (run_path (proc_simplify_batch p) path) = pflops_acc (run_path p path).
+Proof. exact fixed_run_eq_unsimplified_checked. Qed.
+Print Assumptions C18_fixed_run_reports_unsimplified_flops.
+
+(* compute_contracted commutes with dropping indices (the legs part of the invariant) *)
+Theorem C18_compute_contracted_commutes_with_batch_removal : forall ap B il jl, ssorted il -> ssorted jl ->
+  pcontract ap (drop_list B il) (drop_list B jl) = drop_list B (pcontract ap il jl).
+Proof. exact pcontract_drop_list. Qed.
+Print Assumptions C18_compute_contracted_commutes_with_batch_removal.
+
+Theorem C18_edges_checker_sound : forall p, proc_edges_ok_b p = true -> proc_edges_ok p.
+Proof. exact proc_edges_ok_b_sound. Qed.
+Print Assumptions C18_edges_checker_sound.
+
+(* the fixed code on the old witness and on a network with a batch index on three tensors *)
+Example C18_fixed_code_witnesses :
+  reported_flops_gen true witness_net [(0, 1)] = total_flops witness_net [] (Node (Leaf 0) (Leaf 1)) /\
+  let n := mkNet [[0; 1; 4]; [1; 2; 4]; [2; 3; 4]] [0; 3; 4] [(0, 2%Z); (1, 2%Z); (2, 2%Z); (3, 2%Z); (4, 7%Z)] in
+  proc_edges_ok_b (proc_init_fixed n true) = true /\ batch_indices (proc_init_fixed n true) = [2] /\
+  reported_flops_gen true n [(0, 1); (3, 2)] = total_flops n [] (Node (Node (Leaf 0) (Leaf 1)) (Leaf 2)) /\
+  reported_flops n [(0, 1); (3, 2)] <> total_flops n [] (Node (Node (Leaf 0) (Leaf 1)) (Leaf 2)).
+Proof. vm_compute. repeat split; try reflexivity. discriminate. Qed.
+
+(* hypergraph_rule_eq_tree_rule: for every network without a repeated index inside a tensor and
+   every valid SSA path, replaying the path through HyperGraph.contract (from HyperGraph(inputs,
+   output, size_dict)) yields at every step a node whose (duplicate-free) index list is, as a
+   set, exactly the tree's legs of the corresponding subtree and whose node_size is the tree's
+   size; if moreover no index lives on a single tensor without being an output (nodangling)
+   then contract_pair_cost is the tree's flops.  obs_ok nd (k, (inds, (size, cost))) t says:
+   NoDup inds, inds =set lkeys (sub_legs n [] t), size = node_size, and (nd -> cost = node_flops). *)
+Theorem C18_hypergraph_rule_eq_tree_rule : forall n, (forall t, In t (inputs n) -> NoDup t) ->
+  forall path f' nd, (nd = true -> nodangling n) ->
+  ssa_replay (NN n) (map (fun i => (i, Leaf i)) (seq 0 (NN n))) path = Some f' ->
+  Forall2 (obs_ok n nd) (hg_replay (hg_init (inputs n) (output n) (szd n)) path)
+                        (replay_trees (NN n) (map (fun i => (i, Leaf i)) (seq 0 (NN n))) path) /\
+  length (hg_replay (hg_init (inputs n) (output n) (szd n)) path) = length path.
+Proof. exact hg_replay_is_tree_rule. Qed.
+Print Assumptions C18_hypergraph_rule_eq_tree_rule.
+
+(* the invariant behind it, one contraction at a time: the hypergraph represents a forest *)
+Theorem C18_hypergraph_contract_keeps_representation : forall n g F i j ti tj, Rep n g F -> i <> j -> In (i, ti) F -> In (j, tj) F ->
+  let g' := fst (hg_contract i j g) in
+  let k := snd (hg_contract i j g) in
+  k = hnext g /\ Rep n g' ((k, Node ti tj) :: del_tree j (del_tree i F)) /\
+  NoDup (get_node g' k) /\
+  (forall e, In e (get_node g' k) <-> In e (lkeys (sub_legs n [] (Node ti tj)))) /\
+  inrange n (leaves ti ++ leaves tj).
+Proof. exact contract_rep. Qed.
+Print Assumptions C18_hypergraph_contract_keeps_representation.
+
+Example C18_hypergraph_nonvacuous :
+  let n := mkNet [[0; 1]; [1; 2]; [1; 3]; [3; 0]] [2] [(0, 2%Z); (1, 3%Z); (2, 5%Z); (3, 2%Z)] in
+  (forall t, In t (inputs n) -> NoDup t) /\
+  ssa_replay 4 (map (fun i => (i, Leaf i)) (seq 0 4)) [(0, 1); (2, 3); (4, 5)] <> None /\
+  hg_replay (hg_init (inputs n) (output n) (szd n)) [(0, 1); (2, 3); (4, 5)] =
+    [(4, ([0; 1; 2], (30%Z, 30%Z))); (5, ([1; 0], (6%Z, 12%Z))); (6, ([2], (5%Z, 30%Z)))] /\
+  map (fun t => (lkeys (sub_legs n [] t), node_size n [] false t, node_flops n [] t))
+      (replay_trees 4 (map (fun i => (i, Leaf i)) (seq 0 4)) [(0, 1); (2, 3); (4, 5)]) =
+    [([0; 1; 2], 30%Z, 30%Z); ([1; 0], 6%Z, 12%Z); ([2], 5%Z, 30%Z)].
+Proof.
+  cbn zeta. split.
+  { intros t [<-|[<-|[<-|[<-|[]]]]]; repeat constructor; cbn; intuition lia. }
+  vm_compute. repeat split; try reflexivity. discriminate.
+Qed.
 
 (* non-vacuity: a hyper index (1 on three tensors), an output index; the hypotheses of the
    processor theorems hold for the first step and the figures are the expected numbers *)
